@@ -9,7 +9,9 @@ PALETTE = {
     "u8": [("100", "100u8"), ("200u8", "200u8"), ("b'a'", "b'a'"), ("1 + 1", "2u8")],
     "u16": [("3", "3u16"), ("3u16", "3u16"), ("3u8", "u16::from(3u8)"), ("b'A'", "u16::from(b'A')")],
     "i64": [("7", "7i64"), ("7i32", "i64::from(7i32)"), ("-5", "-5i64"), ("7i64", "7i64"), ("b'z'", "i64::from(b'z')"), ("3000000000", "3000000000i64"), ("9223372036854775807", "i64::MAX"), ("-3000000000", "-3000000000i64")],
-    "f64": [("1.5", "1.5f64"), ("2f32", "f64::from(2f32)"), ("3", "f64::from(3i32)"), ("1.5f64", "1.5f64"), ("b'0'", "f64::from(b'0')")],
+    # 0.1f32 / 2.7f32: values that are not exactly representable, so that f64::from(0.1f32) != 0.1f64
+    "f64": [("1.5", "1.5f64"), ("2f32", "f64::from(2f32)"), ("3", "f64::from(3i32)"), ("1.5f64", "1.5f64"), ("b'0'", "f64::from(b'0')"),
+            ("0.1f32", "f64::from(0.1f32)"), ("2.7f32", "f64::from(2.7f32)"), ("0.1", "0.1f64"), ("1e-3f32", "f64::from(1e-3f32)")],
     "bool": [("true", "true")],
     "char": [("'x'", "'x'"), ("b'q'", "char::from(b'q')")],
     "&'static str": [('"hi"', '"hi"')],
@@ -23,7 +25,7 @@ NO_DEFAULT = {"&'static [u8; 2]"}
 UNION_PALETTE = {
     "u32": [("7", "7u32"), ("9u32", "9u32"), ("3u8", "u32::from(3u8)"), ("b'A'", "u32::from(b'A')"), ("4294967295", "u32::MAX")],
     "i32": [("-1", "-1i32"), ("5", "5i32")],
-    "f32": [("1.5", "1.5f32"), ("2f32", "2f32")],
+    "f32": [("1.5", "1.5f32"), ("2f32", "2f32"), ("0.1", "0.1f32"), ("0.1f32", "0.1f32")],
     "[u8; 4]": [("[1, 2, 3, 4]", "[1u8, 2, 3, 4]")],
 }
 PRELUDE_EXTRA = r'''
@@ -66,15 +68,16 @@ class P(b1.Plugin):
     no_values = True
     min_distinct = 1     # one value per definition: T::default()
 
-    def __init__(self):
+    def __init__(self, kinds=("struct", "enum", "enum", "union")):
         self.expr_tab = []      # (id, type, oracle expression)
+        self.kinds = list(kinds)
 
     def expr_id(self, ty, oracle):
         self.expr_tab.append((len(self.expr_tab), ty, oracle))
         return len(self.expr_tab) - 1
 
     def make(self, rng, i):
-        kind = rng.choice(["struct", "enum", "enum", "union"])
+        kind = rng.choice(self.kinds)
         pal = UNION_PALETTE if kind == "union" else PALETTE
         tys = list(pal)
         td = gen.TypeDef(i, "enum" if kind == "enum" else "struct", [])
